@@ -4,6 +4,8 @@
 #![allow(dead_code)]
 
 mod alloc;
+mod golden;
+mod noise;
 mod sio;
 mod specread;
 mod stream;
@@ -38,6 +40,13 @@ fn real_main() {
             }
             let ctx = stream::Ctx { t: terms::Templates::load(&args[2]), seed: seed() };
             stream::run_file(&ctx, &args[3], &args[4]);
+        }
+        "noise" => {
+            if args.len() != 5 {
+                usage();
+            }
+            let t = terms::Templates::load(&args[2]);
+            noise::run_file(&t, seed(), &args[3], &args[4]);
         }
         _ => usage(),
     }
